@@ -16,7 +16,8 @@ CHECKS = {
     "C03": dict(level="model_checking", design_ref="DESIGN.md §5 C03",
                 text="PathSem.tla (comparisons of one governed field exact, everything else free) is explored by TLC for every "
                      "program of the direct-check families, every governed field and value; ExactJudge.tla then demands that a "
-                     "detector reported only if some valid path consists of blocks admitting its dangerous value.",
+                     "detector reported only if some valid path consists of blocks admitting its dangerous value (a walk that runs off "
+                     "the end of the text is accepting only with exactly one value on the stack).",
                 technique="TLC exploration of the abstract walk semantics (PathSem/ExactWalk) + TLC-evaluated judgement (ExactJudge)"),
     "C04": dict(level="model_checking", design_ref="DESIGN.md §5 C04",
                 text="Static: the real tool's graph for every generated program is compared clause by clause with Cfg!Graph "
@@ -88,7 +89,7 @@ CHECKS.update({
                 technique="TLA+ definition of the exports' denotation (RenderCheck.tla) judged by TLC on parsed output files"),
     "C19": dict(level="exploration", design_ref="DESIGN.md §5 C19",
                 text="Per instruction: version, mode and cost (at version 8 and 1) equal AvmTable.tla. Per program (declared "
-                     "version 1-8 or none, random lines over the whole table): flagged lines, field flags, version, mode, mixed-"
+                     "version 1-8 or none, random lines over the whole table, one case in four with dead code after an early return): flagged lines, field flags, version, mode, mixed-"
                      "mode report, contract type and block cost equal what SeqCheck.tla derives from the table.",
                 technique="TLA+ opcode/field table (AvmTable.tla) + TLC judging the real parser's classification"),
     "C20": dict(level="model_checking", design_ref="DESIGN.md §5 C20",
@@ -105,17 +106,22 @@ CHECKS.update({
                      "function graph is the main graph with the off-path successors replaced by error blocks, same ids/lines/text, "
                      "shared subroutines, contract graph unchanged, contexts independent of the other functions built.  Dynamic: "
                      "TLC runs Avm.tla; every accepting execution whose entered-block sequence starts with the path must be "
-                     "admitted by the function's contexts.",
+                     "admitted by the function's contexts.  The same paths named as functions of ONE group configuration "
+                     "(init_tealer_from_config) must yield the functions construct_function builds for each path alone.",
                 technique="TLA+ path surgery (CutCheck!Cut) + TLC exploration of Avm executions restricted to the dispatch path"),
     "C13": dict(level="model_checking", design_ref="DESIGN.md §5 C13",
                 text="Group configurations of GroupGen.tla (1-3 transactions over 12 contracts, types, absolute indices, relative "
                      "offsets) are analysed by the real init_tealer_from_config() with 8 detectors; the reported vulnerable "
                      "transactions must equal Group!Vulnerable (eligibility, own / absolute / relative clearing with the offset "
                      "direction of the property) evaluated on the tool's own leaf contexts, and a one-transaction group must agree "
-                     "with the single-contract verdict.",
-                technique="TLA+ verdict rules (Group.tla) judged by TLC against the real group-mode detectors on TLC-generated configurations"),
+                     "with the single-contract verdict.  Concrete side (GroupSem.tla): for every eligible transaction the tool did "
+                     "not report, every concrete group consistent with the configuration (size up to 5, all placements, the fields "
+                     "some member reads, the target carrying the dangerous value) is run on the Avm machine for every member; an "
+                     "approved group is a violation (c13.sound).",
+                technique="TLA+ verdict rules (Group.tla) and concrete group semantics on the Avm machine (GroupSem.tla) judged by TLC "
+                          "against the real group-mode detectors on TLC-generated configurations"),
     "C14": dict(level="model_checking", design_ref="DESIGN.md §5 C14",
-                text="Histories of Session.tla (up to three actions: analyse contract c with detector order o, re-run) over eight "
+                text="Histories of Session.tla (all ordered pairs of contracts, and random histories of up to three actions: analyse contract c with detector order o, re-run) over ten "
                      "sensitising contracts are replayed each in one fresh interpreter under rotating PYTHONHASHSEED values; the "
                      "digests of contexts / ordered paths / JSON recorded after every action are validated as a trace of Session "
                      "with Result = the digest of a fresh single-action process (SessionTrace.tla).  Worklist orders: the "
